@@ -247,9 +247,10 @@ PROPS = {
                    "what a full channel does to a line (the log counts attempts), real threads (sequential semantics), the TCP glue that writes a link's channel to its socket",
                    "create-user / set-permissions forward like set (same closure shape; not extracted here), remove is never forwarded (observed by the family forward)"],
         assumptions=["every line this node hands to another node's link goes through replicate_if_some (trusted: one try_send per call on the member's channel)",
-                     "set_key_value hands at most one line to the primary's link and none on the primary (ASSUMED contract, by reading: the arbiter branch calls replicate_change "
-                     "once, which unit outbox proves forwards exactly once when the node is neither primary nor starting up); the two open findings are the consequences of "
-                     "exactly that forward, and both are reproduced on the real code by the family traffic",
+                     "set_key_value's traffic contract in unit traffic (at most one line per member marked Primary, none on the primary) is the translation of what unit outbox PROVES on a "
+                     "second, thin extraction of the conflict path (set_key_value / apply_change_to_db_try_fix_conflicts / try_resolve_conflict_response with every store operation a trusted "
+                     "external): at most one call of send_message_to_primary, none on the primary or a starting node, none without the arbiter strategy; the two open findings are the "
+                     "consequences of exactly that forward, and both are reproduced on the real code by the family traffic",
                      "iteration over the member table visits every entry once (R8 shim); register_pending_opp is proved in unit pending",
                      "the session channel has room for the acknowledgement (otherwise the rp handler panics: C10, family flood)"],
     ),
